@@ -81,6 +81,8 @@ func runC02(c *Check) {
 			c.Note("producer %s.%s.%s not found (informational)", prod.rel, prod.recv, prod.name)
 		}
 	}
+	c.Rule("R2.5", "bitswap fetch: a failed re-verification of a concurrently fetched row never ends in a silent success (shared with C10)")
+	c10FetchVerdict(c, "R2.5")
 }
 
 func c02RowSet(c *Check, vs []*verifier, ndV, rndV *verifier) {
